@@ -1,10 +1,10 @@
---------------------------- MODULE Trace_TextCodec ---------------------------
-EXTENDS TextCodec, Json, IOUtils
+----------------------------- MODULE Trace_Chain -----------------------------
+EXTENDS Chain, Json, IOUtils
 Cases == ndJsonDeserialize(IOEnv.TRACE_FILE)
 VARIABLE i
 Init == i \in 1..Len(Cases)
 Next == /\ i > 0
-        /\ LET v == VerdictTC(Cases[i]) IN
+        /\ LET v == VerdictChain(Cases[i]) IN
            IF v = "ok" THEN TRUE ELSE PrintT("REJECT " \o Cases[i].id \o " " \o v)
         /\ i' = 0
 Spec == Init /\ [][Next]_i
